@@ -73,6 +73,19 @@ class Report:
         return self.add(rule, INCONCLUSIVE, where, msg, detail)
 
     def check(self, rule, cond, where, okmsg, badmsg, detail=None):
+        """a two-way rule: the construct has the expected form, or it does not.  "Does not" is a violation only where the construct is still the
+        one the rule was written for; in a function that changed shape (sverif/shape.py) the rule no longer reads the code: undecided"""
+        if cond:
+            return self.ok(rule, where, okmsg, detail)
+        gate = getattr(self, "shape_gate", None)
+        why = gate((where or {}).get("function")) if gate is not None else None
+        if why:
+            return self.unk(rule, where, "%s - not decided, the rule was written for another shape of this code: %s" % (badmsg, why), detail)
+        return self.bad(rule, where, badmsg, detail)
+
+    def decide(self, rule, cond, where, okmsg, badmsg, detail=None):
+        """a two-way rule whose "no" is a fact established by an analysis (an exception handler around the call, the state of the random
+        stream at a draw), not the absence of an expected form: it holds whatever shape the surrounding code has"""
         return self.ok(rule, where, okmsg, detail) if cond else self.bad(rule, where, badmsg, detail)
 
     def require_count(self, rule, minimum):
